@@ -554,6 +554,8 @@ type LiveResp struct {
 	Overlaps   int64
 	// WriteHook, if set, is called (outside the lock) at the start of every Write / Flush: schedule perturbation.
 	WriteHook func(kind string, n int)
+	// WriteHookBytes, if set, is called (outside the lock) with the bytes of every Write.
+	WriteHookBytes func(p []byte)
 	// FailWrites makes Write return an error (peer gone) once set.
 	failWrites atomic.Bool
 }
@@ -582,6 +584,9 @@ func (l *LiveResp) Write(p []byte) (int, error) {
 	defer atomic.AddInt32(&l.inWrite, -1)
 	if h := l.WriteHook; h != nil {
 		h("write", len(p))
+	}
+	if h := l.WriteHookBytes; h != nil {
+		h(p)
 	}
 	l.mu.Lock()
 	defer l.mu.Unlock()
